@@ -96,8 +96,8 @@ Qed.
    the same inside and outside an open_array() context *)
 Theorem read_value : forall s i, SInv s -> fst (sched_step s (ARead i)) = OValue (cget (sc_data s) i).
 Proof.
-  intros s i HI. cbn [sched_step]. pose proof (acquire_spec s HI) as AS. destruct (acquire s) as [m s1].
-  destruct AS as (_ & _ & _ & _ & _ & D1 & _ & _ & _ & M1). rewrite M1, D1. reflexivity.
+  intros s i HI. cbn [sched_step]. destruct (acquire_spec s HI) as (G1 & X1 & D1 & M1).
+  destruct (acquire s) as [m s1]. cbn [fst snd] in *. rewrite M1, D1. reflexivity.
 Qed.
 
 Theorem write_then_read : forall s i v, SInv s ->
@@ -107,8 +107,8 @@ Theorem write_then_read : forall s i v, SInv s ->
 Proof.
   intros s i v HI s'. destruct (sched_step_safe s (AWrite i v) HI) as [HI' _]. fold s' in HI'.
   assert (Hd: sc_data s' = cset (sc_data s) i v).
-  { subst s'. cbn [sched_step]. pose proof (acquire_spec s HI) as AS. destruct (acquire s) as [m s1].
-    destruct AS as (_ & _ & U1 & _ & _ & D1 & _ & _ & _ & M1). rewrite M1. cbn [snd].
+  { subst s'. cbn [sched_step]. destruct (acquire_spec s HI) as (G1 & X1 & D1 & M1).
+    destruct (acquire s) as [m s1]. cbn [fst snd] in *. rewrite M1. cbn [snd].
     rewrite (proj1 (release_same _)). cbn [set_data sc_data]. rewrite D1. reflexivity. }
   split; [exact HI'|]. split.
   - rewrite (read_value s' i HI'), Hd. f_equal. apply cget_cset_same.
@@ -125,11 +125,22 @@ Proof.
   intros s a HI Hg Hx Ha s'. destruct (sched_step_safe s a HI) as [HI' _]. fold s' in HI'.
   apply no_leak; [exact HI'| |].
   - subst s'. destruct Ha as [[i ->]|[[i [v ->]]| ->]]; cbn [sched_step];
-      pose proof (acquire_spec s HI) as AS; destruct (acquire s) as [m s1];
-      destruct AS as (_ & _ & _ & G1 & _ & _ & _ & _ & _ & M1); rewrite ?M1; cbn [snd];
+      destruct (acquire_spec s HI) as (G1 & X1 & D1 & M1); destruct (acquire s) as [m s1]; cbn [fst snd] in *;
+      rewrite ?M1; cbn [snd];
       rewrite (proj1 (proj2 (release_same _))); cbn [set_data sc_gens]; rewrite G1; exact Hg.
   - subst s'. destruct Ha as [[i ->]|[[i [v ->]]| ->]]; cbn [sched_step];
-      pose proof (acquire_spec s HI) as AS; destruct (acquire s) as [m s1];
-      destruct AS as (_ & _ & _ & _ & X1 & _ & _ & _ & _ & M1); rewrite ?M1; cbn [snd];
+      destruct (acquire_spec s HI) as (G1 & X1 & D1 & M1); destruct (acquire s) as [m s1]; cbn [fst snd] in *;
+      rewrite ?M1; cbn [snd];
       rewrite (proj2 (proj2 (release_same _))); cbn [set_data sc_ctx]; rewrite X1; exact Hx.
+Qed.
+
+(* the length may change while the array is open (append / truncate_array inside a context) *)
+Theorem resize_step : forall s n, SInv s ->
+  let s' := snd (sched_step s (AResize n)) in
+  SInv s' /\ sc_len s' = n /\ sc_data s' = sc_data s /\ sc_users s' = sc_users s /\
+  sc_gens s' = sc_gens s /\ sc_ctx s' = sc_ctx s.
+Proof.
+  intros s n HI s'. destruct (sched_step_safe s (AResize n) HI) as [HI' _]. fold s' in HI'.
+  split; [exact HI'|]. subst s'. cbn [sched_step]. destruct (sc_cache s); cbn [snd sc_len sc_data sc_users sc_gens sc_ctx];
+    repeat split; reflexivity.
 Qed.
